@@ -243,6 +243,13 @@ func (m *Mutex) Lock() {
 	s := active.Load()
 	if s != nil && s.cur != nil && s.cur.quiet == 0 {
 		t := s.cur
+		if s.Transparent != nil && !m.held.Load() && s.Transparent(callerFunc(3), "Mutex.Lock") {
+			// an uncontended lock of a transparent class is not a scheduling point
+			if m.held.CompareAndSwap(false, true) {
+				m.owner = t.Name
+				return
+			}
+		}
 		t.waitMu = m
 		yield("Mutex.Lock", "", true)
 		// the scheduler only resumes us when the mutex is free
